@@ -184,13 +184,23 @@ def require_tlc_ok(res, what):
 REJ = re.compile(r"TRACE-REJECTED first unmatched line\D+(\d+)\D+(\d+)")
 
 
+NO_COVERAGE = {"Foreign_Trace.tla", "PubIn_Trace.tla", "Ecc_Trace.tla", "Field_Trace.tla", "CurveLib_Trace.tla",
+               "Hash_Trace.tla", "Msm_Trace.tla", "Pairing_Trace.tla"}
+
+
 def validate_trace(trace_path, module, cfg, prop, timeout=1800, env=None):
     """Trace validation: returns (accepted: bool, first_unmatched_line or None, tlc result)."""
     ev = {"TRACE": trace_path}
     if env:
         ev.update(env)
+    # (coverage instrumentation makes the BigNat / Curve based trace specs ~10x slower; for those the
+    # number of consumed lines is the coverage measure)
+    heavy = module in NO_COVERAGE
     res = run_tlc(module, cfg, prop, env=ev, workers=1, timeout=timeout,
-                  coverage=True, depth_first=True)
+                  coverage=not heavy, depth_first=True)
+    if heavy and "No error has been found" in res["out"]:
+        n = sum(1 for _ in open(trace_path))
+        res["actions"] = {"lines": n}
     m = REJ.search(res["out"])
     if m:
         return False, int(m.group(1)), res
